@@ -310,3 +310,28 @@ NAMED = {
     'finishes': ['point', 'range'], 'finished by': ['range', 'point'], 'includes': ['range', 'point'], 'during': ['point', 'range'], 'starts': ['point', 'range'], 'started by': ['range', 'point'],
     'coincides': ['point1', 'point2'], 'is': ['value1', 'value2'],
 }
+
+
+# ------------------------------------------------------------------ comments with adversarial bodies (seed C05_b was missed without them)
+def comment_cases():
+    """block and line comments whose bodies hold runs of `*` and `/` of every length 0..6 at the start, in the middle and right before the
+    terminator; unterminated and nested-looking comments; before / between / after tokens and as the whole input"""
+    runs = ['*' * k for k in range(7)] + ['/' * k for k in range(1, 7)] + ['*/' * 2, '/*' * 2, '*/*', '/*/', '**/', '/**', '* /', '*\n*', ' * ', '2 * 3', ' doc ', '\n', '\t*\t', '\u00e9*\U0001F600*']
+    bodies = set()
+    for r in runs:
+        bodies |= {r, r + 'a', 'a' + r, 'a' + r + 'b', ' ' + r + ' ', r + ' ' + r}
+    out = []
+    for b in sorted(bodies):
+        block = '/*' + b + '*/'
+        out += [block, block + ' 1', '1 ' + block, '1 ' + block + ' + 2', '1 +' + block + '2', block + block + ' 1', '[1,' + block + ' 2]', '{a:' + block + ' 1}', 'f(' + block + ')',
+                '/*' + b, '1 + /*' + b, '/*' + b + '*', '/*' + b + '* /', '//' + b, '//' + b + '\n1', '1 //' + b, '1 //' + b + '\n+ 2', '"' + block + '"', block + '"s"' + block]
+    return sorted(set(out))
+
+
+def in_name_cases():
+    """iteration / quantifier variables whose first name part is the keyword `in` (lexer till_in branch), with every name symbol"""
+    out = []
+    for sym in ['+', '-', '*', '/', '.', "'", ' ', '  ', '_', '1', ' in', ' in ', '+in', '.in', ' x', '+x', '-x in']:
+        for kw, tail in (('for', 'return 1'), ('some', 'satisfies true'), ('every', 'satisfies true')):
+            out += ['%s in%s in [1] %s' % (kw, sym, tail), '%s in%sx in [1] %s' % (kw, sym, tail), '%s x%sin in [1] %s' % (kw, sym, tail), '%s in%s' % (kw, sym), '%s x in [1], in%sy in [2] %s' % (kw, sym, tail)]
+    return sorted(set(out))
